@@ -38,9 +38,174 @@ pub fn generate(profile: &str, seed: u64, n: usize, size: usize) -> Vec<History>
                 out.push(gen_seg(&mut rng, size));
             }
         }
+        // exhaustive closures over small universes (size = number of keys)
+        "mapx" => out = crate::exhaust::gen_mapsetx(Coll::MapTree, size.max(1) as i32),
+        "setx" => out = crate::exhaust::gen_mapsetx(Coll::SetTree, size.max(1) as i32),
+        "keyx" => out = crate::exhaust::gen_keyx(size.max(1) as i32, 3),
+        "hold" => out = crate::exhaust::gen_hold(size.max(1) as i32),
+        // finite sweeps, sharded: n = number of shards, size = this shard (deep layout: size >= n)
+        "seg32" => out = shard(crate::exhaust::gen_seg32(), n, size),
+        "layout" => out = shard(crate::exhaust::gen_layout(size >= n.max(1)), n, size),
+        // long insert / delete / expiry / clear churn on the three trees, all capacity hints
+        "churn" => {
+            for i in 0..n {
+                let mut a = gen_mapset(&mut rng, Coll::MapTree, size);
+                let mut b = gen_mapset(&mut rng, Coll::SetTree, size);
+                let mut c = gen_key(&mut rng, size);
+                let cap = CAPS[i % CAPS.len()];
+                a.params = vec![cap];
+                b.params = vec![cap];
+                c.params = vec![cap];
+                out.push(a);
+                out.push(b);
+                out.push(c);
+            }
+        }
+        // ordered export from trees of every size up to `size`, three insertion orders
+        "export" => out = gen_export(&mut rng, size),
+        // cleared-versus-fresh twins on all seven collections
+        "twin" => {
+            for _ in 0..n {
+                gen_twins(&mut rng, size, &mut out);
+            }
+        }
+        // panic injection at every user-callback invocation of short histories
+        "inject" => {
+            for _ in 0..n {
+                gen_inject(&mut rng, size, &mut out);
+            }
+        }
         p => panic!("unknown profile {p}"),
     }
     out
+}
+
+fn shard(all: Vec<History>, n: usize, k: usize) -> Vec<History> {
+    let n = n.max(1);
+    all.into_iter().enumerate().filter(|(i, _)| i % n == k % n).map(|(_, h)| h).collect()
+}
+
+fn gen_export(rng: &mut Rng, size: usize) -> Vec<History> {
+    let mut out = Vec::new();
+    for order in 0..3 {
+        for coll in [Coll::KeyTree, Coll::KeyList] {
+            if coll == Coll::KeyList && size > 20000 {
+                continue; // Vec::insert at the front is quadratic
+            }
+            let mut ops = Vec::new();
+            let mut keys: Vec<i32> = (0..size as i32).collect();
+            match order {
+                0 => {}
+                1 => keys.reverse(),
+                _ => {
+                    for i in (1..keys.len()).rev() {
+                        let j = rng.below(i as u64 + 1) as usize;
+                        keys.swap(i, j);
+                    }
+                }
+            }
+            let mut next_check = 0usize;
+            ops.push(Op::K(KOp::Export(0)));
+            for (i, k) in keys.iter().enumerate() {
+                // a third of the entries expire at 5: exports at 0 and at 5 differ
+                let e = if i % 3 == 0 { 5 } else { 1_000_000 };
+                ops.push(Op::K(KOp::Ins { k: *k, e, v: i as i64 + 1, t: 0 }));
+                if i + 1 >= next_check {
+                    ops.push(Op::K(KOp::Export(0)));
+                    ops.push(Op::K(KOp::Export(5)));
+                    next_check = if i < 70 { i + 2 } else { (i + 1) * 13 / 10 };
+                }
+            }
+            ops.push(Op::K(KOp::Export(0)));
+            ops.push(Op::K(KOp::Export(5)));
+            out.push(History { coll, params: vec![*rng.pick(&CAPS)], ops, twin: None, inject: None });
+        }
+    }
+    out
+}
+
+fn strip_holds(h: &mut History) {
+    h.ops.retain(|o| !matches!(o, Op::M(MOp::Hold(_)) | Op::M(MOp::Chk)));
+}
+
+/// (history that ends its prefix with clear and then runs a suffix, fresh instance running the
+/// same suffix); the runner compares the answers of the two suffix runs
+fn gen_twins(rng: &mut Rng, size: usize, out: &mut Vec<History>) {
+    let psize = if rng.chance(10) { 1 } else { size.max(2) };
+    let colls = [Coll::MapTree, Coll::MapList, Coll::SetTree, Coll::SetList, Coll::KeyTree, Coll::KeyList, Coll::Seg];
+    let coll = *rng.pick(&colls);
+    let (mut pre, mut suf) = match coll {
+        Coll::MapTree | Coll::MapList => (gen_mapset(rng, Coll::MapTree, psize), gen_mapset(rng, Coll::MapTree, size.max(2))),
+        Coll::SetTree | Coll::SetList => (gen_mapset(rng, Coll::SetTree, psize), gen_mapset(rng, Coll::SetTree, size.max(2))),
+        Coll::KeyTree | Coll::KeyList => (gen_key(rng, psize), gen_key(rng, size.max(2))),
+        Coll::Seg => {
+            let p = gen_seg(rng, psize);
+            let mut s = gen_seg(rng, size.max(2));
+            // same domain for both
+            while s.params != p.params {
+                s = gen_seg(rng, size.max(2));
+            }
+            (p, s)
+        }
+    };
+    strip_holds(&mut pre);
+    strip_holds(&mut suf);
+    if psize == 1 {
+        pre.ops.clear(); // clear of a collection that was never used
+    }
+    pre.coll = coll;
+    suf.coll = coll;
+    let clear = match coll {
+        Coll::MapTree | Coll::MapList | Coll::SetTree | Coll::SetList => Op::M(MOp::Clear),
+        Coll::KeyTree | Coll::KeyList => Op::K(KOp::Clear),
+        Coll::Seg => Op::S(SOp::Clear),
+    };
+    let mut a = pre.clone();
+    a.ops.push(clear.clone());
+    if rng.chance(20) {
+        a.ops.push(clear.clone()); // repeated clear
+    }
+    let off = a.ops.len();
+    // "every query returns the empty answer" right after the clear: the suffix starts with probes
+    let probes: Vec<Op> = match coll {
+        Coll::MapTree | Coll::MapList | Coll::SetTree | Coll::SetList => vec![Op::M(MOp::IsEmpty), Op::M(MOp::Get(3)), Op::M(MOp::First(1000))],
+        Coll::KeyTree | Coll::KeyList => vec![Op::K(KOp::IsEmpty), Op::K(KOp::LessEq(0, 1000)), Op::K(KOp::Get(0, 3)), Op::K(KOp::Export(0))],
+        Coll::Seg => vec![Op::S(SOp::Query { a: a.params[0], b: a.params[1], t: 0, n: -1 })],
+    };
+    let mut b = suf.clone();
+    b.ops = probes.clone();
+    b.ops.extend(suf.ops.iter().cloned());
+    a.ops.extend(b.ops.iter().cloned());
+    if coll != Coll::Seg {
+        b.params = vec![*rng.pick(&CAPS)];
+    }
+    let idx = out.len();
+    b.twin = Some((idx, off));
+    out.push(a);
+    out.push(b);
+}
+
+/// a short history followed by the same history once per user-callback invocation index, with a
+/// panic injected at that invocation
+fn gen_inject(rng: &mut Rng, size: usize, out: &mut Vec<History>) {
+    let size = size.max(4);
+    let colls = [Coll::MapTree, Coll::MapList, Coll::SetTree, Coll::SetList, Coll::KeyTree, Coll::KeyTree, Coll::KeyList, Coll::KeyList, Coll::Seg];
+    let coll = *rng.pick(&colls);
+    let mut h = match coll {
+        Coll::MapTree | Coll::MapList => gen_mapset(rng, Coll::MapTree, size),
+        Coll::SetTree | Coll::SetList => gen_mapset(rng, Coll::SetTree, size),
+        Coll::KeyTree | Coll::KeyList => gen_key(rng, size),
+        Coll::Seg => gen_seg(rng, size),
+    };
+    strip_holds(&mut h);
+    h.coll = coll;
+    let (_, calls) = crate::exec::run_silent(&h);
+    out.push(h.clone());
+    for k in 0..calls {
+        let mut hk = h.clone();
+        hk.inject = Some(k);
+        out.push(hk);
+    }
 }
 
 /// the same history for the list variant: handles are positions there, which insertions shift,
